@@ -587,6 +587,11 @@ class _Merger(object):
         self.varkwargs = self._add_starargs(
             self.varkwargs_src, self.l.varkwargs, self.r.varkwargs)
 
+        # parameters that were converted to positional-only must also be
+        # classified as such for the next step of an n-ary merge
+        while self.pokargs and self.pokargs[0].kind == self.pokargs[0].POSITIONAL_ONLY:
+            self.posargs.append(self.pokargs.pop(0))
+
     def _merge_depths(self):
         return merge_depths(self.l.sources.get('+depths', {}),
                             self.r.sources.get('+depths', {}))
